@@ -171,9 +171,49 @@ def exact(W, o, depth=0):
     return repr(o)
 
 
+def colliding_world(ctx, rep):
+    """C13-collide: the same universe in a world where *every* hash collides (hash(x) == 0): == must still be
+    the same relation and must still leave both operands untouched - hash differences may only speed a
+    comparison up, never decide it."""
+    prog = ctx.prog
+    where = prog.get_function("ufl.exprequals", "expr_equals")
+    W = FormWorld(ctx, hash_salt="collide")
+    ip = W.ip
+    U = build(W)
+    names = [x[0] for x in U.items]
+    objs = [x[1] for x in U.items]
+    keys = [x[2] for x in U.items]
+    n = len(objs)
+    before = [(ip.py_repr(o), exact(W, o)) for o in objs]
+    bad = 0
+    for a, b in itertools.product(range(n), repeat=2):
+        try:
+            e = bool(ip.obj_eq(objs[a], objs[b]))
+        except LiftRaise as ex:
+            if "NotImplementedError" in ex.what:
+                continue
+            bad += 1
+            rep.violation("C13-collide", where, f"{names[a]} == {names[b]}", f"with colliding hashes, comparing {names[a]} with {names[b]} raises: {ex.what}")
+            continue
+        if e != (keys[a] == keys[b]):
+            bad += 1
+            if bad < 6:
+                rep.violation("C13-collide", where, f"{names[a]} | {names[b]}", f"with colliding hashes {names[a]} == {names[b]} is {e}, but they are {'equal' if keys[a] == keys[b] else 'different'} by construction: the comparison relies on hashes being different")
+        for k in (a, b):
+            now = (ip.py_repr(objs[k]), exact(W, objs[k]))
+            if now != before[k]:
+                bad += 1
+                if bad < 6:
+                    rep.violation("C13-collide", where, f"{names[k]} changed by {names[a]} == {names[b]}", f"with colliding hashes the comparison {names[a]} == {names[b]} (result {e}) changed {names[k]}: {before[k][0]!r:.100} -> {now[0]!r:.100}")
+                before[k] = now
+    if not bad:
+        rep.ok("C13-collide", where, f"== is the same relation and leaves its operands untouched on {n} objects when every hash collides ({n * n} comparisons)")
+
+
 def run(ctx) -> Report:
     rep = Report("C13")
     prog = ctx.prog
+    colliding_world(ctx, rep)
     W = FormWorld(ctx)
     ip = W.ip
     for name, e in W._elements.items():
